@@ -86,9 +86,18 @@ def make_file(rng, tier, vals=None, ghost=False):
     trailing = rng.choice([b"", b"", b" ", b"\n", b"\r\n "])
     sep = rng.choice([b" ", b"\n", b"  ", b"\r\n"])
     payload, first = build_objstm(members, rng, sp, trailing, sep)
-    filt = rng.choice([None, "flate", "hex", "a85"])
-    data, fname = {None: (payload, None), "flate": (codecs.zlib_encode(payload), Name("FlateDecode")),
-                   "hex": (codecs.hex_encode(payload), Name("ASCIIHexDecode")), "a85": (codecs.a85_encode(payload), Name("ASCII85Decode"))}[filt]
+    ENC = {"flate": (codecs.zlib_encode, "FlateDecode"), "hex": (codecs.hex_encode, "ASCIIHexDecode"), "a85": (codecs.a85_encode, "ASCII85Decode"),
+           "rl": (codecs.rle_encode, "RunLengthDecode"), "lzw": (codecs.lzw_encode, "LZWDecode")}
+    # no filter, one filter, or a chain of two or three (the first name of /Filter is the outermost encoding: decoded first)
+    filt = rng.choice([None, "flate", "hex", "a85", "rl", "lzw", "hex+flate", "a85+rl", "flate+hex", "rl+a85+flate", "hex+lzw"])
+    if filt is None:
+        data, fname = payload, None
+    else:
+        names = filt.split("+")
+        data = payload
+        for fn_ in reversed(names):          # encode innermost (last listed) first
+            data = ENC[fn_][0](data)
+        fname = Name(ENC[names[0]][1]) if len(names) == 1 else [Name(ENC[fn_][1]) for fn_ in names]
     d = {"Type": Name("ObjStm"), "N": n, "First": first}
     if fname:
         d["Filter"] = fname
